@@ -4,6 +4,7 @@ import (
 	"fmt"
 	"math"
 	"math/big"
+	"reflect"
 	"sort"
 
 	"github.com/tuneinsight/lattigo/v6/circuits/ckks/bootstrapping"
@@ -41,6 +42,7 @@ func c10Scenarios() []c10Scenario {
 			{name: "mpbgv.MaskedTransform(other output parameters)", build: c10MPBGVSwitch},
 			{name: "rgsw", build: c10RGSW},
 			{name: "rlwe.RingPackingEvaluator", build: c10RingPacking},
+			{name: "rlwe.KeyGenerator", build: c10KeyGenerator},
 			{name: "bootstrapping.Evaluator", heavy: true, build: c10Bootstrapping},
 		}
 	}
@@ -1137,6 +1139,78 @@ func c10MPBGVSwitch(ctx *core.RunCtx, g *core.Xoshiro) *c10World {
 				return 0, fmt.Errorf("INVALID: the transform through this object does not preserve the message")
 			}
 			return hashOperand(got), nil
+		}},
+	}
+	return w
+}
+
+// --- key generator -----------------------------------------------------------------------------------------
+
+// keyGen is what the scenario uses of a key generator (the copy constructors of rlwe.KeyGenerator are those
+// of the encryptor it embeds).
+type keyGen interface {
+	GenSecretKeyNew() *rlwe.SecretKey
+	GenPublicKeyNew(sk *rlwe.SecretKey) *rlwe.PublicKey
+	GenRelinearizationKeyNew(sk *rlwe.SecretKey, evkParams ...rlwe.EvaluationKeyParameters) *rlwe.RelinearizationKey
+}
+
+func c10KeyGenerator(ctx *core.RunCtx, g *core.Xoshiro) *c10World {
+	params, _ := drawParams(ctx, catalog.SpecOpts{MinLogN: 5, MaxLogN: 7, MinQ: 2, MaxQ: 3, MinP: 1, MaxP: 2, MinBits: 30, MaxBits: 55})
+	sk := rlwe.NewKeyGenerator(params).GenSecretKeyNew()
+	B := big.NewInt(int64(params.NoiseBound()))
+	mk := func() any { return rlwe.NewKeyGenerator(params) }
+	kg := func(x any) (keyGen, error) {
+		k, ok := x.(keyGen)
+		if !ok {
+			return nil, fmt.Errorf("INVALID: the object is a %T, which cannot generate keys", x)
+		}
+		return k, nil
+	}
+	w := &c10World{name: "rlwe.KeyGenerator", orig: mk(), fresh: mk}
+	w.copiers = []c10Copier{
+		{"ShallowCopy", true, func(x any) any {
+			// the method set decides what ShallowCopy is: reached through reflection so that the scenario
+			// compiles whatever type it returns
+			m := reflect.ValueOf(x).MethodByName("ShallowCopy")
+			if !m.IsValid() {
+				return x
+			}
+			return m.Call(nil)[0].Interface()
+		}},
+	}
+	w.steps = []c10Step{
+		{"GenSecretKeyNew", true, func(x any) (uint64, error) {
+			k, err := kg(x)
+			if err != nil {
+				return 0, err
+			}
+			s := k.GenSecretKeyNew()
+			return hashQP(s.Value), nil
+		}},
+		{"GenPublicKeyNew", true, func(x any) (uint64, error) {
+			k, err := kg(x)
+			if err != nil {
+				return 0, err
+			}
+			pk := k.GenPublicKeyNew(sk)
+			gc := &rlwe.GadgetCiphertext{Value: [][]rlwe.VectorQP{{rlwe.VectorQP{pk.Value[0], pk.Value[1]}}}}
+			if e, where := gadgetNoise(params, gc, params.RingQ().NewPoly(), sk.Value); e.Cmp(B) > 0 {
+				return 0, fmt.Errorf("INVALID: the public key generated through this object is not a key of the secret (error %s at %s)", e.String(), where)
+			}
+			return hashQP(pk.Value[0]) ^ 3*hashQP(pk.Value[1]), nil
+		}},
+		{"GenRelinearizationKeyNew", true, func(x any) (uint64, error) {
+			k, err := kg(x)
+			if err != nil {
+				return 0, err
+			}
+			rlk := k.GenRelinearizationKeyNew(sk)
+			s2 := params.RingQ().NewPoly()
+			params.RingQ().MulCoeffsMontgomery(sk.Value.Q, sk.Value.Q, s2)
+			if e, where := gadgetNoise(params, &rlk.GadgetCiphertext, s2, sk.Value); e.Cmp(B) > 0 {
+				return 0, fmt.Errorf("INVALID: the relinearization key generated through this object is not a key of the secret (error %s at %s)", e.String(), where)
+			}
+			return hashGadget(&rlk.GadgetCiphertext), nil
 		}},
 	}
 	return w
